@@ -317,8 +317,26 @@ func checkC16(w *World, r *Report) {
 			if cg.Atom(s) == AuthSet {
 				nset++
 				acc := s.Args()[len(s.Args())-1]
-				o := w.Tracer().Origins(acc)
-				r.Check(o.HasCall(".GetAccount") && !o.HasCall("NewAccountWithAddress") && !o.HasCall("NewBaseAccount"), "C16.accounts", "account upgrade stores the account it read", w.Pos(s.Instr.Pos()), "value originates from GetAccount", "the stored account is not the existing one")
+				// the very object that was read (type-asserted), not a rebuilt copy: a constructor would reset
+				// every field it is not given (DelegatedVesting, DelegatedFree)
+				v := acc
+				for i := 0; i < 4; i++ {
+					switch x := v.(type) {
+					case *ssa.MakeInterface:
+						v = x.X
+					case *ssa.ChangeInterface:
+						v = x.X
+					case *ssa.Extract:
+						if ta, ok := x.Tuple.(*ssa.TypeAssert); ok && x.Index == 0 {
+							v = ta.X
+						}
+					case *ssa.TypeAssert:
+						v = x.X
+					}
+				}
+				c, isCall := v.(*ssa.Call)
+				same := isCall && strings.HasSuffix(callName(c.Common()), ".GetAccount")
+				r.Check(same, "C16.accounts", "account upgrade stores the account object it read", w.Pos(s.Instr.Pos()), "SetAccount receives the type-asserted result of GetAccount", "the stored account is rebuilt instead of being the object that was read: fields that are not copied (delegated vesting / delegated free) are lost")
 			}
 		}
 		if nset == 0 {
